@@ -15,168 +15,83 @@ package fosite
 import (
 	"context"
 	"html/template"
-	"net"
 	"net/http"
 	"net/url"
 	"strings"
 
 	"github.com/ory/fosite/zz_verif_h/zz"
+	"github.com/ory/fosite/zz_verif_h/zzuri"
 )
 
-// ---- alphabets (probed against net/url go1.23: these characters survive Parse and String verbatim)
+type zzURI = zzuri.URI
+type zzURIOpt = zzuri.Opt
 
-const (
-	zzC11ExHost  = " #%/:?@[\\]^`{|}"
-	zzC11ExPath  = " \"#%<>?\\^`{|}"
-	zzC11ExFrag  = " \"#%<>\\^`{|}"
-	zzC11ExQuery = "#"
-	zzC11Lower   = "abcdefghijklmnopqrstuvwxyz"
-	zzC11Unres   = "abcdefghijklmnopqrstuvwxyzABCDEFGHIJKLMNOPQRSTUVWXYZ0123456789-_.~"
+var (
+	zzNewURI        = zzuri.New
+	zzAllBut        = zzuri.AllBut
+	zzRefQualifies  = zzuri.RefQualifies
+	zzRefLoopbackIP = zzuri.RefLoopbackIP
+	zzRefLocal      = zzuri.RefLocal
+	zzC11Hosts      = zzuri.Hosts
 )
 
-// zzAllBut returns printable ASCII minus keep (an exclude list for zz.StringEx).
-func zzAllBut(keep string) string {
-	var b []byte
-	for c := byte(' '); c <= '~'; c++ {
-		if strings.IndexByte(keep, c) < 0 {
-			b = append(b, c)
-		}
-	}
-	return string(b)
-}
-
-// zzURI is a structured URI: the raw text and its components.
-type zzURI struct {
-	raw      string
-	scheme   string // as written (Parse lower-cases it)
-	lscheme  string // lower-cased
-	host     string // hostname [":" port]
-	hostname string // what Hostname() returns (brackets stripped)
-	path     string
-	query    string
-	frag     string
-	relative bool
-}
-
-var zzC11Hosts = []string{"", "[::1]", "127.0.0.1", "localhost", "127.0.0.2", "x.localhost", "127.0.0.1.evil.test", "localhost.evil.test"}
-
-type zzURIOpt struct {
-	schemeKinds int  // 1: symbolic lower-case; 2: + "HTTP"; 3: + scheme-relative "//host/path"
-	hostKinds   int  // prefix of zzC11Hosts (0 = symbolic hostname)
-	hostLen     int  // bound of the symbolic hostname
-	kvQuery     bool // query is absent or "a=" value (so that Query() is decidable), chosen by fork
-	noFrag      bool
-}
-
-func zzNewURI(name string, o zzURIOpt) zzURI {
-	var u zzURI
-	sk := 0
-	if o.schemeKinds > 1 {
-		sk = zz.Choice(name+".schemekind", o.schemeKinds)
-	}
-	switch sk {
-	case 0:
-		u.scheme = zz.StringEx(name+".scheme", 5, zzAllBut(zzC11Lower))
-		zz.Assume(u.scheme != "")
-		u.lscheme = u.scheme
-	case 1:
-		u.scheme, u.lscheme = "HTTP", "http"
-	case 2:
-		u.relative = true
-	}
-	hk := 0
-	if o.hostKinds > 1 {
-		hk = zz.Choice(name+".hostkind", o.hostKinds)
-	}
-	lit := ""
-	if hk == 0 {
-		u.hostname = zz.StringEx(name+".hostname", o.hostLen, zzC11ExHost)
-		lit = u.hostname
-	} else {
-		lit = zzC11Hosts[hk]
-		u.hostname = strings.TrimSuffix(strings.TrimPrefix(lit, "["), "]")
-	}
-	colon := zz.StringEx(name+".colon", 1, zzAllBut(":"))
-	port := zz.StringEx(name+".port", 5, zzAllBut("0123456789"))
-	zz.Assume(zz.Implies(colon == "", port == ""))
-	u.host = lit + colon + port
-	if u.relative {
-		zz.Assume(lit != "") // "///p" is a path, not an empty authority
-	}
-	u.path = zz.StringEx(name+".path", 6, zzC11ExPath)
-	zz.Assume(zz.Or(u.path == "", strings.HasPrefix(u.path, "/")))
-	if o.kvQuery {
-		if zz.Choice(name+".hasquery", 2) == 1 {
-			u.query = "a=" + zz.StringEx(name+".qval", 4, zzAllBut(zzC11Unres))
-		}
-	} else {
-		u.query = zz.StringEx(name+".query", 6, zzC11ExQuery) // "" = no query (a bare "?" is outside the structured encoding)
-	}
-	if !o.noFrag {
-		u.frag = zz.StringEx(name+".frag", 4, zzC11ExFrag) // "" = no fragment (a bare "#" is outside the structured encoding)
-	}
-	pre := "//"
-	if !u.relative {
-		pre = u.scheme + "://"
-	}
-	u.raw = pre + lit + colon + port + u.path + zz.IteStr(u.query == "", "", "?"+u.query) + zz.IteStr(u.frag == "", "", "#"+u.frag)
-	zz.DeclareURLParts(u.raw, u.scheme, lit, colon+port, u.path, u.query, u.frag)
-	return u
-}
-
-// ---- the reference (specification) predicates; non-forking
-
-func zzRefLoopbackIP(hostname string) bool { return net.ParseIP(hostname).IsLoopback() }
-
-func zzRefLocal(hostname string) bool {
-	return zz.Or(zz.Or(hostname == "localhost", strings.HasSuffix(hostname, ".localhost")), zzRefLoopbackIP(hostname))
-}
-
-// zzRefQualifies: req is string-identical to a registered URI, or is an http URI on a loopback IP
-// literal whose hostname, path and query equal those of a registered URI; absolute, no fragment.
-func zzRefQualifies(req zzURI, regs []zzURI) bool {
-	exact, sameLoc := false, false
-	for _, r := range regs {
-		exact = zz.Or(exact, req.raw == r.raw)
-		sameLoc = zz.Or(sameLoc, zz.And(zz.And(r.hostname == req.hostname, r.path == req.path), r.query == req.query))
-	}
-	loop := zz.And(zz.And(req.lscheme == "http", zzRefLoopbackIP(req.hostname)), sameLoc)
-	valid := zz.And(req.lscheme != "", req.frag == "")
-	return zz.And(zz.Or(exact, loop), valid)
-}
+const zzC11Unres = zzuri.Unres
 
 func zzRaws(regs []zzURI) []string {
 	out := make([]string, len(regs))
 	for i := range regs {
-		out[i] = regs[i].raw
+		out[i] = regs[i].Raw
 	}
 	return out
 }
 
-func zzC11Sizes() (maxReg, hostKinds, hostLen int) {
+// zzC11RegOpt: how much of the registered URIs is enumerated by fork (the rest is symbolic), per
+// number of registered URIs, so that the path count stays inside the tier's budget.
+func zzC11RegOpt(n int) zzURIOpt {
 	if zz.Thorough() {
-		return 3, 4, 20
+		switch n {
+		case 1:
+			return zzURIOpt{SchemeKinds: 3, HostKinds: 8, HostLen: 20}
+		case 2:
+			return zzURIOpt{SchemeKinds: 2, HostKinds: 3, HostLen: 20}
+		}
+		return zzURIOpt{SchemeKinds: 1, HostKinds: 3, HostLen: 20}
 	}
-	return 2, 2, 12
+	if n == 1 {
+		return zzURIOpt{SchemeKinds: 3, HostKinds: 3, HostLen: 12}
+	}
+	return zzURIOpt{SchemeKinds: 1, HostKinds: 2, HostLen: 12}
+}
+
+func zzC11ReqOpt() zzURIOpt {
+	if zz.Thorough() {
+		return zzURIOpt{SchemeKinds: 3, HostKinds: 8, HostLen: 20}
+	}
+	return zzURIOpt{SchemeKinds: 3, HostKinds: 3, HostLen: 12}
+}
+
+func zzC11MaxReg() int {
+	if zz.Thorough() {
+		return 3
+	}
+	return 2
 }
 
 // ---- harness 1: the matcher, structured encoding
 
 func ZZ_C11_match_struct() {
-	maxReg, hostKinds, hostLen := zzC11Sizes()
-	n := 1 + zz.Choice("nreg", maxReg)
+	n := 1 + zz.Choice("nreg", zzC11MaxReg())
 	absent := zz.Choice("absent", 2) == 1
 	regs := make([]zzURI, n)
 	for i := range regs {
-		regs[i] = zzNewURI("reg", zzURIOpt{schemeKinds: 3, hostKinds: hostKinds, hostLen: hostLen})
+		regs[i] = zzNewURI("reg", zzC11RegOpt(n))
 	}
 	var req zzURI
 	if !absent {
-		req = zzNewURI("req", zzURIOpt{schemeKinds: 3, hostKinds: hostKinds, hostLen: hostLen})
-		zz.Assume(req.raw != "")
+		req = zzNewURI("req", zzC11ReqOpt())
 	}
 	client := &DefaultClient{ID: "c", RedirectURIs: zzRaws(regs)}
-	u, err := MatchRedirectURIWithClientRedirectURIs(req.raw, client)
+	u, err := MatchRedirectURIWithClientRedirectURIs(req.Raw, client)
 	zz.Observe("matched", err == nil)
 	if err != nil {
 		zz.Cover("refused", true)
@@ -192,17 +107,17 @@ func ZZ_C11_match_struct() {
 		zz.Assert(n == 1, "absent redirect_uri only with a single registration")
 		zz.Cover("absent-single", true)
 		want = regs[0]
-		zz.Assert(zz.And(want.lscheme != "", want.frag == ""), "sole registered URI is absolute and fragment-free")
+		zz.Assert(zz.And(want.Lscheme != "", want.Frag == ""), "sole registered URI is absolute and fragment-free")
 	} else {
 		zz.Assert(zzRefQualifies(req, regs), "accepted redirect_uri qualifies (exact or loopback rule; absolute; no fragment)")
 		exact := false
 		for _, r := range regs {
-			exact = zz.Or(exact, req.raw == r.raw)
+			exact = zz.Or(exact, req.Raw == r.Raw)
 		}
 		zz.Cover("exact", exact)
 		zz.Cover("loopback-any-port", !exact)
 	}
-	same := zz.And(zz.And(u.Scheme == want.lscheme, u.Host == want.host), zz.And(u.Path == want.path, u.RawQuery == want.query))
+	same := zz.And(zz.And(u.Scheme == want.Lscheme, u.Host == want.Host), zz.And(u.Path == want.Path, u.RawQuery == want.Query))
 	zz.Assert(zz.And(same, u.Fragment == ""), "target is the parse of the validated text")
 	zz.Assert(u.Scheme != "", "target absolute")
 	zz.Observe("target", u.String())
@@ -277,12 +192,12 @@ func zzC11CheckSecure(u *url.URL, lscheme, hostname string) {
 }
 
 func ZZ_C11_secure_struct() {
-	x := zzNewURI("u", zzURIOpt{schemeKinds: 3, hostKinds: len(zzC11Hosts), hostLen: 14})
-	u, err := url.Parse(x.raw)
+	x := zzNewURI("u", zzURIOpt{SchemeKinds: 3, HostKinds: len(zzC11Hosts), HostLen: 14})
+	u, err := url.Parse(x.Raw)
 	zz.Assert(err == nil, "structured URI parses")
-	zzC11CheckSecure(u, x.lscheme, x.hostname)
+	zzC11CheckSecure(u, x.Lscheme, x.Hostname)
 	valid := IsValidRedirectURI(u)
-	zz.Assert(valid == zz.And(x.lscheme != "", x.frag == ""), "IsValidRedirectURI == absolute and fragment-free")
+	zz.Assert(valid == zz.And(x.Lscheme != "", x.Frag == ""), "IsValidRedirectURI == absolute and fragment-free")
 	zz.Cover("valid", valid)
 	zz.Cover("invalid", !valid)
 }
@@ -331,14 +246,17 @@ func zzC11Fosite() *Fosite {
 
 // zzC11WantNoFrag: String() of the validated URI without fragment, from the components.
 func zzC11Want(v zzURI) (base, noFrag string) {
-	base = v.lscheme + ":" + zz.IteStr(zz.And(v.host == "", v.path == ""), "", "//") + v.host + v.path
-	noFrag = base + zz.IteStr(v.query == "", "", "?"+v.query)
+	// (the writer harnesses exclude the empty authority, so String() always has the "//")
+	base = v.Lscheme + "://" + v.Host + v.Path
+	noFrag = base + zz.IteStr(v.Query == "", "", "?"+v.Query)
 	return
 }
 
 // zzC11CheckTarget inspects what was written: returns whether a redirect (Location or form post) was produced
-// and asserts that its target is the validated URI with only query/fragment changed.
-func zzC11CheckTarget(rw *zzRW, mode ResponseModeType, validated zzURI, qualifies bool) bool {
+// and asserts that its target is a legitimate one with only query/fragment changed: the requested URI (when it
+// qualifies) or a registered URI (absolute, fragment-free). Phrased as a disjunction over the candidates so that
+// the candidate the code actually used is recognised structurally.
+func zzC11CheckTarget(rw *zzRW, mode ResponseModeType, requested *zzURI, regs []zzURI, qualifies bool) bool {
 	loc := rw.hdr.Get("Location")
 	action, _, posted := zz.FormPost(string(rw.body))
 	zz.Observe("location", loc)
@@ -347,43 +265,93 @@ func zzC11CheckTarget(rw *zzRW, mode ResponseModeType, validated zzURI, qualifie
 		return false
 	}
 	zz.Assert(qualifies, "redirect only to a qualifying URI")
-	base, noFrag := zzC11Want(validated)
+	type cand struct {
+		u  zzURI
+		ok bool
+	}
+	var cands []cand
+	if requested != nil {
+		cands = append(cands, cand{*requested, qualifies})
+	}
+	for _, r := range regs {
+		cands = append(cands, cand{r, zz.And(r.Lscheme != "", r.Frag == "")})
+	}
 	if posted {
 		zz.Cover("form-post", true)
 		zz.Assert(loc == "", "form post carries no Location")
 		zz.Assert(mode == ResponseModeFormPost, "form post only in form_post mode")
-		zz.Assert(action == noFrag, "form-post target is the validated URI")
+		ok := false
+		for _, c := range cands {
+			_, noFrag := zzC11Want(c.u)
+			ok = zz.Or(ok, zz.And(c.ok, action == noFrag))
+		}
+		zz.Assert(ok, "form-post target is the validated URI")
 		zz.Observe("action", action)
 		return true
 	}
 	zz.Assert(rw.status == http.StatusSeeOther, "redirect status 303")
+	ok := false
 	if mode == ResponseModeFragment {
 		zz.Cover("fragment-redirect", true)
-		zz.Assert(strings.HasPrefix(loc, noFrag+"#"), "fragment mode: validated URI (query intact) then '#'")
+		for _, c := range cands {
+			_, noFrag := zzC11Want(c.u)
+			ok = zz.Or(ok, zz.And(c.ok, strings.HasPrefix(loc, noFrag+"#")))
+		}
+		zz.Assert(ok, "fragment mode: validated URI (query intact) then '#'")
 	} else {
 		zz.Cover("query-redirect", true)
-		zz.Assert(strings.HasPrefix(loc, base+"?"), "query mode: scheme, host and path of the validated URI then '?'")
+		for _, c := range cands {
+			base, _ := zzC11Want(c.u)
+			ok = zz.Or(ok, zz.And(c.ok, strings.HasPrefix(loc, base+"?")))
+		}
+		zz.Assert(ok, "query mode: scheme, host and path of the validated URI then '?'")
 		zz.Assert(!strings.Contains(loc, "#"), "query mode: no fragment")
 	}
 	return true
 }
 
+// zzC11Norm: the URI as (*URL).String() renders it (scheme lower-cased), declared as a structured URL
+// of its own so that it can be compared with the registered texts.
+func zzC11Norm(u zzURI) zzURI {
+	if u.Relative || u.Scheme == u.Lscheme {
+		return u
+	}
+	n := u
+	n.Scheme = u.Lscheme
+	n.Raw = n.Lscheme + "://" + u.Host + u.Path + zz.IteStr(u.Query == "", "", "?"+u.Query) + zz.IteStr(u.Frag == "", "", "#"+u.Frag)
+	zz.DeclareURLParts(n.Raw, n.Scheme, u.HostLit, u.PortPart, u.Path, u.Query, u.Frag)
+	return n
+}
+
 func zzC11Setup(maxReg int) (f *Fosite, ar *AuthorizeRequest, regs []zzURI, req zzURI, absent bool) {
-	_, hostKinds, hostLen := zzC11Sizes()
+	hostLen := 12
+	if zz.Thorough() {
+		hostLen = 20
+	}
 	n := 1 + zz.Choice("nreg", maxReg)
 	absent = zz.Choice("absent", 2) == 1
 	regs = make([]zzURI, n)
 	for i := range regs {
-		regs[i] = zzNewURI("reg", zzURIOpt{schemeKinds: 1, hostKinds: hostKinds, hostLen: hostLen, kvQuery: true})
+		regs[i] = zzNewURI("reg", zzURIOpt{SchemeKinds: 1, HostKinds: 2, HostLen: hostLen, KvQuery: true, HostNonEmpty: true})
 	}
 	if !absent {
-		req = zzNewURI("req", zzURIOpt{schemeKinds: 2, hostKinds: hostKinds, hostLen: hostLen, kvQuery: true})
+		o := zzURIOpt{SchemeKinds: 2, HostKinds: 2, HostLen: hostLen, KvQuery: true, HostNonEmpty: true}
+		if zz.Thorough() {
+			o.HostKinds = 4
+		} else {
+			// quick: the requested URI has a query iff the first registered one has (mismatches are the matcher harness's business)
+			o.HasQuery = 1
+			if regs[0].Query != "" {
+				o.HasQuery = 2
+			}
+		}
+		req = zzNewURI("req", o)
 	}
 	f = zzC11Fosite()
 	ar = NewAuthorizeRequest()
 	ar.Client = &DefaultClient{ID: "c", RedirectURIs: zzRaws(regs)}
 	ar.State = zz.String("state", 10)
-	ar.Form = url.Values{"redirect_uri": {req.raw}, "state": {ar.State}}
+	ar.Form = url.Values{"redirect_uri": {req.Raw}, "state": {ar.State}}
 	ar.ResponseMode = zzC11Modes[zz.Choice("mode", len(zzC11Modes))]
 	return
 }
@@ -407,7 +375,7 @@ func ZZ_C11_write_error() {
 			zz.Cover("error-after-validation", true)
 			if absent {
 				validated = regs[0]
-				qualifies = zz.And(len(regs) == 1, zz.And(validated.lscheme != "", validated.frag == ""))
+				qualifies = zz.And(len(regs) == 1, zz.And(validated.Lscheme != "", validated.Frag == ""))
 			} else {
 				qualifies = zzRefQualifies(req, regs)
 			}
@@ -417,19 +385,25 @@ func ZZ_C11_write_error() {
 		}
 	case 2: // a requester whose redirect URI was never validated
 		zz.Assume(!absent)
-		pu, perr := url.Parse(req.raw)
+		pu, perr := url.Parse(req.Raw)
 		zz.Assume(perr == nil)
 		ar.RedirectURI = pu
-		qualifies = zzRefQualifies(req, regs)
+		// the writer re-validates the text String() renders: lower-case scheme
+		validated = zzC11Norm(req)
+		qualifies = zzRefQualifies(validated, regs)
 		zz.Cover("unvalidated-uri", true)
 	}
 	var cause error = ErrInvalidScope
-	if zz.Choice("cause", 2) == 1 {
+	if zz.Thorough() && zz.Choice("cause", 2) == 1 {
 		cause = ErrAccessDenied.WithHint("denied")
 	}
 	rw := &zzRW{hdr: http.Header{}}
 	f.WriteAuthorizeError(ctx, rw, ar, cause)
-	if !zzC11CheckTarget(rw, ar.ResponseMode, validated, qualifies) {
+	var rq *zzURI
+	if !absent {
+		rq = &validated
+	}
+	if !zzC11CheckTarget(rw, ar.ResponseMode, rq, regs, qualifies) {
 		zz.Cover("json-error", true)
 		zz.Assert(rw.hdr.Get("Location") == "", "no Location on a direct error")
 		zz.Assert(rw.hdr.Get("Content-Type") == "application/json;charset=UTF-8", "direct error is JSON")
@@ -456,7 +430,7 @@ func ZZ_C11_write_response() {
 	qualifies := false
 	if absent {
 		validated = regs[0]
-		qualifies = zz.And(len(regs) == 1, zz.And(validated.lscheme != "", validated.frag == ""))
+		qualifies = zz.And(len(regs) == 1, zz.And(validated.Lscheme != "", validated.Frag == ""))
 	} else {
 		qualifies = zzRefQualifies(req, regs)
 	}
@@ -466,6 +440,10 @@ func ZZ_C11_write_response() {
 	resp.AddParameter("state", ar.State)
 	rw := &zzRW{hdr: http.Header{}}
 	f.WriteAuthorizeResponse(ctx, rw, ar, resp)
-	zz.Assert(zzC11CheckTarget(rw, ar.ResponseMode, validated, qualifies), "success response is a redirect")
+	var rq *zzURI
+	if !absent {
+		rq = &validated
+	}
+	zz.Assert(zzC11CheckTarget(rw, ar.ResponseMode, rq, regs, qualifies), "success response is a redirect")
 	zz.Observe("status", rw.status)
 }
